@@ -110,7 +110,10 @@ CHECKS = {
  "C11": ("proof", "PARTIAL by nature. Theorems in coq/Props/C11.v about the model of run / print_message / exit_code / current_args: "
          "status 0 exactly for value/help/version/completion and 1 exactly for failures (exit_code regenerated from "
          "src/error.rs), help/version/completion on stdout only, failures on stderr only with the non-empty `Error: ` prefix, "
-         "the body is reached iff a value was produced, the program name is the UTF-8 file name of argv[0]. That a real "
+         "the body is reached iff a value was produced, the program name is the UTF-8 file name of argv[0]; "
+         "C11_no_request_no_stdout_partial -- for every definition without adjacent whose levels carry a default-like Info, a "
+         "line that holds no help flag never ends on stdout or in completion output (QuietLaws.v, mutual induction over the "
+         "parser: every failure handed outward by a subcommand is a stderr failure). That a real "
          "process behaves so cannot be a theorem (write(2), buffering, process::exit live in the OS): it is established by the "
          "tie -- every case is run in-process (run_inner with the documented name) and as a spawned child that calls the real "
          "OptionParser::run() with raw byte argv and argv[0] variants; (status, stdout, stderr, body sentinel) must be exactly "
@@ -183,7 +186,9 @@ CHECKS = {
          "subcommand trees with aliases), `compile` (the combinator term) and `denote` (one left-to-right attribution scan giving "
          "every token a role, then arity and value checks; Unspecified exactly for the property's carve-outs: help requests, "
          "ambiguous clusters, dash-words, options of an enclosing level right of a command name). "
-         "PROVED (coq/Props/C01.v), the full statement for the fragment: C01_tree_complete -- for every whole subcommand tree "
+         "PROVED (coq/Props/C01.v), the full statement for the fragment: C01_conformance -- for every whole subcommand tree and "
+         "every argv: denote = Accept v gives run_inner = Ok v, denote = Reject gives an error message on stderr (never a value, "
+         "a document or a panic), Unspecified is the property's carve-out; C01_tree_complete -- for every whole subcommand tree "
          "(any number of subcommands with aliases at every level; decidable conditions tree_ok and plain_cmds = command names "
          "non-empty without leading dash) and every argv the grammar specifies, run_inner = Ok v EXACTLY when denote = Accept v; "
          "C01_tree_rejected_never_ok; the same for flat levels (C01_flat_complete) and the Accept half alone for flat/chain/tree "
@@ -196,7 +201,8 @@ CHECKS = {
          "rejects is a token no field can remove), ConvTreeSound.v (the converse through command levels: fields take whole "
          "occurrences only, so the first token they leave is a key or the command word the scan stopped at; construct! and the "
          "alternative read backwards; induction on the tree), TokOs.v (the text recorded for an option token starts with a dash "
-         "or is empty, so it is never taken for a command name). Also proved: a key no item of a whole subcommand tree owns is "
+         "or is empty, so it is never taken for a command name), QuietLaws.v + ConvStderr.v (no help flag left on the line: no "
+         "run ends on stdout; the compiled tree passes check_invariants at every level, so TotalLaws applies). Also proved: a key no item of a whole subcommand tree owns is "
          "never swallowed (corollary of C05). The theorems speak about the model; the tie: conformance of the implementation "
          "against `denote` (4000 vectors quick: sentences in every spelling/order, near-miss and mutated non-sentences, salted "
          "vectors) and of the evaluator model on Coq's `compile`; flat_ok/chain_ok/tree_ok/plain_cmds are evaluated on every "
